@@ -313,6 +313,7 @@ class PythonToIrCompiler:
         entry_block = self.builder.block
         test_block = self.builder.new_block()
         body_block = self.builder.new_block()
+        step_block = self.builder.new_block()
         final_block = self.builder.new_block()
 
         self.emit(ir.Jump(test_block))
@@ -326,17 +327,18 @@ class PythonToIrCompiler:
         # Publish looping variable:
         self.local_map[statement.target.id] = Var(i_phi, False, ir.i64)
 
-        # Body:
-        self.enter_loop(test_block, final_block)
+        # Body, continue proceeds with the next value:
+        self.enter_loop(step_block, final_block)
         self.builder.set_block(body_block)
         self.gen_statement(statement.body)
         self.leave_loop()
+        self.builder.emit_jump(step_block)
 
         # Increment loop variable:
+        self.builder.set_block(step_block)
         one = self.builder.emit_const(1, ir.i64)
         i_inc = self.builder.emit_add(i_phi, one, ir.i64)
-        # The body may end in another block than the one it started in:
-        i_phi.set_incoming(self.builder.block, i_inc)
+        i_phi.set_incoming(step_block, i_inc)
 
         # Jump to start again:
         self.builder.emit_jump(test_block)
